@@ -61,6 +61,17 @@ def EigSpec (c : Cfg) (n : ℕ) (A : (Fin n → K) →ₗ[K] (Fin n → K)) : Pr
           = evals.getD j Lin.zero * vget (cols.getD j (vzero c.ncv)) i) ∧
       lastRow.getD j Lin.zero = vget (cols.getD j (vzero c.ncv)) (c.ncv - 1)
 
+/-- `EigSpec` required only on the regular states `G` -/
+def EigSpecOn (c : Cfg) (n : ℕ) (A : (Fin n → K) →ₗ[K] (Fin n → K)) (G : Arnoldi.State K → Prop) : Prop :=
+  ∀ (s : Arnoldi.State K) evals lastRow cols, PassInv n c.ncv A s c.ncv → G s → s.k = c.ncv →
+    HermSolver.eigH c.ncv s = .ok (evals, lastRow, cols) → ∀ j, j < c.ncv →
+      (∀ i, i < c.ncv → ∑ a ∈ range c.ncv, s.H.get i a * vget (cols.getD j (vzero c.ncv)) a
+          = evals.getD j Lin.zero * vget (cols.getD j (vzero c.ncv)) i) ∧
+      lastRow.getD j Lin.zero = vget (cols.getD j (vzero c.ncv)) (c.ncv - 1)
+
+theorem EigSpec.on {c : Cfg} {n : ℕ} {A : (Fin n → K) →ₗ[K] (Fin n → K)} (h : EigSpec c n A) (G : Arnoldi.State K → Prop) :
+    EigSpecOn c n A G := fun s ev lr cl hI _ hk he => h s ev lr cl hI hk he
+
 variable (E : ExactSc K)
 include E
 
@@ -157,7 +168,7 @@ def SortOK : Prop :=
 def hermX (op : Arnoldi.Op K) (c : Cfg) (eps23 : K) (back : K → K) (n : ℕ) (M : Matrix (Fin n) (Fin n) K)
     (hop : OpOK n op (opOf M)) (hsa : ∀ x y, dotProduct x (opOf M y) = dotProduct (opOf M x) y)
     (G : Arnoldi.State K → Prop) (S : Vec K → Prop) (hR : Reg op n c.ncv (opOf M) G S)
-    (h1 : 1 ≤ c.nev) (h2 : c.nev < c.ncv) (hQR : QROK (K := K) c.ncv) (hSort : SortOK (K := K)) (hEig : EigSpec c n (opOf M)) :
+    (h1 : 1 ≤ c.nev) (h2 : c.nev < c.ncv) (hQR : QROK (K := K) c.ncv) (hSort : SortOK (K := K)) (hEig : EigSpecOn c n (opOf M) G) :
     ExactKernelsOn (HermSolver.hermKern op c eps23 back) c n M eps23 (HInv n c.ncv (opOf M) G) S where
   abs s := absAt n s.k s
   fnorm s := s.beta
@@ -202,7 +213,7 @@ def hermX (op : Arnoldi.Op K) (c : Cfg) (eps23 : K) (back : K → K) (n : ℕ) (
     intro s evals lastRow cols h hfull heig j hj
     have hfull' : s.k = c.ncv := hfull
     have hIm : PassInv n c.ncv (opOf M) s c.ncv := by have := h.1; rw [hfull'] at this; exact this
-    obtain ⟨e1, e2⟩ := hEig s evals lastRow cols hIm hfull' heig j hj
+    obtain ⟨e1, e2⟩ := hEig s evals lastRow cols hIm h.2 hfull' heig j hj
     refine ⟨?_, e2⟩
     intro i hi
     show ∑ a ∈ range c.ncv, maskH s.k s.H i a * vget (cols.getD j (vzero c.ncv)) a
@@ -298,7 +309,7 @@ noncomputable def hermXF (hsqrt : ∀ x : K, 0 ≤ x → F.sqrt x * F.sqrt x = x
     (letI := scOfField F;
       ExactKernelsOn (HermSolver.hermKern op c eps23 back) c n M eps23 (HInv n c.ncv (opOf M) G) S) :=
   letI := scOfField F
-  hermX (exactSc F hsqrt) op c eps23 back n M hop (selfadjoint_of_symm M hM) G S hR h1 h2 (qrOK F hsqrt hcut heps c.ncv) (sortOK F) hEig
+  hermX (exactSc F hsqrt) op c eps23 back n M hop (selfadjoint_of_symm M hM) G S hR h1 h2 (qrOK F hsqrt hcut heps c.ncv) (sortOK F) (EigSpec.on hEig G)
 
 /-- **Every history, for the executable numeric kernels** (core of `C01.c01_histories_hermKern`) -/
 theorem histories_hermKern (hsqrt : ∀ x : K, 0 ≤ x → F.sqrt x * F.sqrt x = x ∧ 0 ≤ F.sqrt x) (hcut : C08Givens.cutoff F ≤ 0)
